@@ -175,10 +175,15 @@ class Ctx:
             heap=None, name=None, deadlock=True):
         """Run TLC on spec/<module>.tla with spec/<cfg> in a scratch copy of the spec dir."""
         scratch = os.path.join(self.work, "tlc-%s-%d" % (name or module, int(time.time() * 1000) % 100000000))
-        shutil.copytree(SPEC, scratch)
-        cmd = ["java", "-XX:+UseParallelGC", "-Xss64m"]
-        if heap:
-            cmd.append("-Xmx%s" % heap)
+        # other checks may add/remove generated cfg files in spec/ while we copy: ignore files that vanish
+        os.makedirs(scratch, exist_ok=True)
+        for fn in os.listdir(SPEC):
+            if fn.endswith((".tla", ".cfg")):
+                try:
+                    shutil.copy(os.path.join(SPEC, fn), os.path.join(scratch, fn))
+                except (FileNotFoundError, shutil.Error, OSError):
+                    pass
+        cmd = ["java", "-XX:+UseParallelGC", "-Xss64m", "-Xmx%s" % (heap or os.environ.get("VERIF_TLC_HEAP", "8g"))]
         cmd += ["-cp", TLC_CP, "tlc2.TLC", "-workers", str(workers), "-metadir", os.path.join(scratch, "md"),
                 "-seed", str(self.seed), "-noGenerateSpecTE"]
         if cfg:
@@ -419,6 +424,13 @@ def main_wrap(fn):
         fn()
     except Inconclusive as e:
         log("INCONCLUSIVE: %s" % e)
+        sys.exit(2)
+    except SystemExit:
+        raise
+    except BaseException as e:      # a bug in the machinery is never a violation
+        import traceback
+        traceback.print_exc()
+        log("INCONCLUSIVE: internal error: %r" % (e,))
         sys.exit(2)
 
 
